@@ -18,7 +18,9 @@ Open Scope Z_scope.
    Stuck / out-of-fuel leaves make no claim.  The early invalid-jump leaf is excluded: see
    C01_badjump_refuted. *)
 Theorem C01_sound :
-  forall lim se rho oracle loop fuel sg s,
+  forall lim se rho oracle loop,
+    Forall (fun b => 0 <= b < 256) (se_code se) ->
+    forall fuel sg s,
     R se rho sg s ->
     forall l, In l (fst (sexec lim se oracle loop fuel sg)) ->
     Forall (fun c => (eval rho (fst c) =? 0) = negb (snd c)) (l_path l) ->
@@ -28,7 +30,9 @@ Print Assumptions C01_sound.
 
 (* one symbolic step is simulated by one concrete step (instruction by instruction) *)
 Theorem C01_step :
-  forall lim se rho run_sub sg s,
+  forall lim se rho run_sub,
+    Forall (fun b => 0 <= b < 256) (se_code se) ->
+    forall sg s,
     R se rho sg s ->
     sim_result lim se rho sg (sstep lim se sg) s (step lim run_sub (inst_env se rho) s).
 Proof. exact sim_step. Qed.
